@@ -127,6 +127,7 @@ class C20(Check):
                                 if n == 3 and (sx[0] in heavy or sa[0] in heavy): continue
                                 yield {'terms': full, 'x': list(sx), 'a': list(sa)}
         yield from self.reuse_cases(tier)
+        yield from self.large_cases(tier)
 
     def reuse_cases(self, tier):
         """One encoder object used for several consecutive calls with different inputs (learners keep one encoder for
@@ -140,6 +141,46 @@ class C20(Check):
                     for sa in shapes:
                         for kind in ('other-values', 'hash-equal-values', 'other-shape'):
                             yield {'reuse': kind, 'terms': list(tl), 'x': list(sx), 'a': list(sa)}
+
+    def large_cases(self, tier):
+        """Long namespaces: sizes around powers of two (fixed-size tables / buffers), dense and mapping-valued encodings."""
+        sizes = [255, 256, 257, 1023, 1024, 1025] + ([4095, 4096, 4097] if tier != 'quick' else [2049])
+        for n in sizes:
+            for tl in (['x'], ['x', 'a'], ['x', 'xa'], ['a', 'ax']):
+                for mode in ('dense', 'string-last', 'string-first', 'sparse-a', 'str-a'):
+                    yield {'large': n, 'terms': tl, 'mode': mode}
+
+    def run_large(self, case, acc):
+        n, terms, mode = case['large'], case['terms'], case['mode']
+        x = list(range(2, n + 2))
+        a = [3, 5]
+        if mode == 'string-last': x = x[:-1] + ['u']
+        if mode == 'string-first': x = ['u'] + x[1:]
+        if mode == 'sparse-a': a = {'k0': 3, 'k1': 5}
+        if mode == 'str-a': a = 's'
+        try:
+            out = InteractionsEncoder(terms).encode(x=x, a=a)
+        except Exception as e:      # noqa
+            acc.violation(f'encode|raises {type(e).__name__}|long namespace {mode}', f'{n} features: {e!r}'); return
+        feats = {'x': features(x), 'a': features(a)}
+        blocks = [expected_block(t, feats) for t in terms]
+        acc.mark_nontrivial()
+        if mode == 'dense':
+            exp = [sorted(v for _, v in b) for b in blocks]
+            pos, ok = 0, isinstance(out, list) and len(out) == sum(map(len, exp))
+            if ok:
+                for b in exp:
+                    ok = ok and sorted(out[pos:pos + len(b)]) == b; pos += len(b)
+            if not ok:
+                acc.violation('encode|wrong monomials|long dense namespace', f'{n} x-features, terms {terms}: {len(out) if hasattr(out, "__len__") else type(out).__name__} values, expected {sum(map(len, exp))}')
+        else:
+            exp = {}
+            for b in blocks:
+                for ident, v in b: exp[ident] = v
+            if not isinstance(out, dict) or len(out) != len(exp) or Counter(out.values()) != Counter(exp.values()):
+                acc.violation(f'encode|wrong monomials|long namespace in a mapping-valued encoding ({mode})',
+                              f'{n} x-features, terms {terms}: {len(out) if hasattr(out, "__len__") else type(out).__name__} features, expected {len(exp)}')
+        acc.outcome(('large', mode, len(out) if hasattr(out, '__len__') else -1))
 
     def run_reuse(self, case, acc):
         terms, sx, sa, kind = case['terms'], tuple(case['x']), tuple(case['a']), case['reuse']
@@ -171,6 +212,7 @@ class C20(Check):
 
     def run_case(self, case, acc):
         if 'reuse' in case: return self.run_reuse(case, acc)
+        if 'large' in case: return self.run_large(case, acc)
         terms, sx, sa = case['terms'], tuple(case['x']), tuple(case['a'])
         str_terms = [t for t in terms if isinstance(t, str)]
         const = sum(t for t in terms if not isinstance(t, str))
